@@ -81,6 +81,15 @@ class World(C09_bounded.World):
         FS, Cause, SS = E.FileState, E.HashUpdateCause, E.StepState
         step = self.running.pop(k)
         state = await self.read(step.get_state)
+        stale = (step.label == "./plan.py" and self.plan_dirty) or step.label in self.dirty
+        if state == SS.CHECKING and stale:
+            # the executor finds the input digest changed: the step goes back to PENDING without its hash and runs later
+            def reset():
+                step.reset_for_rerun()
+                step.delete_hash()
+                step.set_state(SS.PENDING)
+            await self.tx(reset)
+            return
         if state == SS.CHECKING:
             def skip():
                 outs = {f.label: self.fh(f.label) for f in step.products(File) if f.get_state() in (FS.PLANNED, FS.OUTDATED)}
@@ -89,8 +98,10 @@ class World(C09_bounded.World):
             await self.tx(skip)
             return
         await self.tx(step.reset_for_rerun)
+        self.dirty.discard(step.label)
         ok, defer = True, False
         if step.label == "./plan.py":
+            self.plan_dirty = False
             try:
                 async with self.db:
                     self.plan_script(step)
@@ -123,6 +134,8 @@ class World(C09_bounded.World):
             good = ok and not defer
             for f in step.products(File):
                 st = f.get_state()
+                if good and st == FS.OUTDATED and getattr(self, "stable", False):
+                    continue  # reproduced bit for bit: the executor reports no changed hash for it
                 if good and st in (FS.PLANNED, FS.OUTDATED):
                     outs[f.label] = self.fh(f.label)
                 elif not good and st in (FS.PLANNED, FS.OUTDATED, FS.BUILT):
